@@ -1507,7 +1507,7 @@ unsafe fn call_import(&mut self, _params: Self::ParamsLower, _results: *mut u8) 
                     self.push_str("Self");
                 }
                 ConstructorReturnType::Result { err } => {
-                    self.push_str("Result<Self, ");
+                    self.push_str("::core::result::Result<Self, ");
                     self.print_result_type(&err);
                     self.push_str("> where Self: Sized");
                 }
